@@ -23,6 +23,7 @@ ASIS = {
     "Stream_acceptdeadline.cfg": "NoReadErrorWhileUp",   # a read deadline left armed by the accept path (seeded c03-accept-read-deadline-never-cleared)
     "Stream_noticefatal.cfg": "NoSpontaneousClose",   # a transient notice must not close the writing side (seeded change c03-any-unreach-cancels-stream)
     "Stream_origincut.cfg": "NoAbort",            # DESIGN.md section 9 #17, open finding
+    "DialWatch_asis.cfg": "LateCancelHarmless",   # the dial-time context watcher as it was before fix abe971f (random select closes an established connection's socket)
     "Bridge_connect_any.cfg": "E2EEOFOnlyAfterAll",   # inherent to a full-close endpoint: not demanded
     "Bridge_proxyout_any.cfg": "E2EEOFOnlyAfterAll",
 }
@@ -44,11 +45,13 @@ def run(tier, seed, replay=None):
     bridge = ["Bridge_mesh_any.cfg" if tier == "quick" else "Bridge_mesh_any_full.cfg", "Bridge_connect_orderly.cfg", "Bridge_proxyout_orderly.cfg", "Bridge_tcp_orderly.cfg"]
     fd = {c: pool.submit(vlib.tlc_must_pass, "Stream", c, wd, workers=3, timeout=1200) for c in design}
     fd.update({c: pool.submit(vlib.tlc_must_pass, "Bridge", c, wd, workers=2, timeout=1200) for c in bridge})
+    fd["DialWatch_fixed.cfg"] = pool.submit(vlib.tlc_must_pass, "DialWatch", "DialWatch_fixed.cfg", wd, workers=1, timeout=600)
     fa = {c: pool.submit(vlib.tlc, c.split("_")[0], c, wd, workers=2, timeout=600) for c in ASIS}
     fw = [pool.submit(vlib.witnesses, "Stream", "Stream_quick.cfg", ["W_NoEOF"], wd, workers=2),
           pool.submit(vlib.witnesses, "Stream", "Stream_origincut.cfg", ["W_NoAbort"], wd, workers=2),
           pool.submit(vlib.witnesses, "Stream", "Stream_quick.cfg", ["W_NoNotice"], wd, workers=2),
-          pool.submit(vlib.witnesses, "Bridge", "Bridge_tcp_orderly.cfg", ["W_NoBothEOF", "W_NoFullClose"], wd, workers=2)]
+          pool.submit(vlib.witnesses, "Bridge", "Bridge_tcp_orderly.cfg", ["W_NoBothEOF", "W_NoFullClose"], wd, workers=2),
+          pool.submit(vlib.witnesses, "DialWatch", "DialWatch_fixed.cfg", ["W_NoLateCancelSurvives", "W_NoWokenThenSpared"], wd, workers=1)]
     states = trans = 0
     tlc_runs = {}
     for c, f in fd.items():
